@@ -589,6 +589,22 @@ def fc1_two_core(rng, idx, variant=None):
     return b.finish([z])
 
 
+def source_tags(net):
+    """constructs of the *source* network under which a known finding of the unchanged compiler is recorded (the check
+    combines the tag with the shape of the Spec's rejection; it never decides pass / fail)"""
+    tags = set()
+    for o in net.ops:
+        if o.kind == "PACK":
+            out = net.tensors[o.outputs[0]]
+            if len(out.shape) == 4 and out.shape[0] > 1:
+                tags.add("pack-ofm-batch>1")
+        if o.kind == "STRIDED_SLICE" and o.opts and o.opts[1].get("NewAxisMask", 0):
+            rank_in = len(net.tensors[o.inputs[0]].shape)
+            if o.opts[1]["NewAxisMask"] & ((1 << rank_in) - 1):
+                tags.add("strided-slice-new-axis-not-trailing")
+    return sorted(tags)
+
+
 BUILDERS = {"lut_mixed": lut_mixed, "shape_out": shape_out, "transpose_perm": transpose_perm, "ew_fork": ew_fork,
             "fc1_two_core": fc1_two_core}
 
